@@ -6,12 +6,15 @@
                   subscriptions per publisher in `for port in node.output for s in port` order, with the publisher's
                   output port index and the subscriber's input port (Apply(i) = i, Train = 1000, Label = 1001)
          perf   = (error) | <comp>
-         action = (train|apply|perftrack|serve  none|<generation>  run  hp  shift  <crash>  <race>)
+         action = (train|apply|perftrack|serve  none|<generation>  run  hp  shift  <crash>  <race>  <via>)
+           via    = none | (<handle id> <keeps runners: true|false>): the action works through a long-lived handle
+                    (an `asset.Instance` kept across actions; faults are not combined with handles)
            crash  = none | <k>: (train) the process dies inside its commit, <k> micro-steps completed (a proper prefix)
            race   = none | (run hp): another process re-trains and commits after the first state load of this action
        every action runs on the case renamed by `+ shift` (uids and gids): a fresh expansion
        (expr <e> <sink: true|false> (<action> ...))   e = (m|a|t|l tag stateful) | (seq e e) | (par e e merger) — mapper, apply-only, train-only, label step:
          the same report (wf, ptags, steps) for the composition the model expands itself (`compOf`, PersistExpr.lean)
+       (params default|own-codec|dict-codec|state-only <hp> <state>) -> (ok <hp> <state>): what `SetState.set` leaves
   out: (ok (wf <plain> <perf> (<the conjuncts of wfPlain> <tailClean>)) (ptags <tag|none> ...) (<step> ...)
            (perfmodel <mech> <spec>) (copy <copyFaithful> <portsOk> <number of mapper paths|error>))
          perfmodel: the perftrack composition derived in the model against the extracted one — do they persist the same
@@ -27,6 +30,7 @@ import ForML.Model.PersistCopy
 import ForML.Model.PersistCommit
 import ForML.Model.PersistTraverse
 import ForML.Model.PersistExpr
+import ForML.Model.PersistHandles
 open ForML ForML.Persist
 
 def bool? : Sexp → Option Bool
@@ -67,15 +71,21 @@ structure Extra where
   shift : Nat
   crash : Option Nat
   race : Option (Nat × Nat)
+  via : Option Via
 
 def race? : Sexp → Option (Option (Nat × Nat))
   | .atom "none" => some none
   | .list [r, h] => do pure (some (← r.nat?, ← h.nat?))
   | _ => none
 
+def via? : Sexp → Option (Option Via)
+  | .atom "none" => some none
+  | .list [i, k] => do pure (some ⟨← i.nat?, ← bool? k⟩)
+  | _ => none
+
 def action? : Sexp → Option (Action × Extra)
-  | .list [k, g, r, h, s, c, rc] => do
-    pure (⟨← kind? k, ← gen? g, ← r.nat?, ← h.nat?⟩, ⟨← s.nat?, ← gen? c, ← race? rc⟩)
+  | .list [k, g, r, h, s, c, rc, v] => do
+    pure (⟨← kind? k, ← gen? g, ← r.nat?, ← h.nat?⟩, ⟨← s.nat?, ← gen? c, ← race? rc, ← via? v⟩)
   | _ => none
 
 def originSexp (o : Origin) : Sexp :=
@@ -108,14 +118,25 @@ def faultOf (reg reg' : Registry) (x : Extra) : Fault where
     | _ => k)
   race := x.race.map (fun r => (r.1, r.2, ((· + x.shift + 500), (· + x.shift + 500))))
 
-def runActions (cs : Case) : Registry → List (Action × Extra) → List Sexp
-  | _, [] => []
-  | reg, (a, x) :: rest =>
-    match step (cs.rename (· + x.shift) (· + x.shift)) reg a with
-    | .error e => .list [.atom "error", .atom (errName e)] :: runActions cs (settle cs reg reg (faultOf reg reg x)) rest
-    | .ok (reg', obs) =>
-      let reg'' := settle cs reg reg' (faultOf reg reg' x)
-      .list [.atom "ok", Sexp.ofNat reg''.length, .list (obs.map obsSexp)] :: runActions cs reg'' rest
+def runActions (cs : Case) : Registry → Views → List (Action × Extra) → List Sexp
+  | _, _, [] => []
+  | reg, vs, (a, x) :: rest =>
+    match x.via with
+    | some via =>
+      -- through a long-lived handle (created by its first action, with that action's generation argument)
+      let v := (vs.lookup via.id).getD ⟨⟨a.gen⟩, none⟩
+      let r := stepVia (cs.rename (· + x.shift) (· + x.shift)) reg v via.keeps a
+      (match r.2.1.result with
+        | .error e => .list [.atom "error", .atom (errName e)]
+        | .ok obs => .list [.atom "ok", Sexp.ofNat r.1.length, .list (obs.map obsSexp)])
+        :: runActions cs r.1 (vs.set via.id r.2.2) rest
+    | none =>
+      match step (cs.rename (· + x.shift) (· + x.shift)) reg a with
+      | .error e =>
+        .list [.atom "error", .atom (errName e)] :: runActions cs (settle cs reg reg (faultOf reg reg x)) vs rest
+      | .ok (reg', obs) =>
+        let reg'' := settle cs reg reg' (faultOf reg reg' x)
+        .list [.atom "ok", Sexp.ofNat reg''.length, .list (obs.map obsSexp)] :: runActions cs reg'' vs rest
 
 /-- the extracted perftrack composition against the one the model derives from the plain composition -/
 def perfAgrees (derived perf : Except Err Comp) : String :=
@@ -156,7 +177,7 @@ def stepC04 : Sexp → Sexp
       -- `Segment.copy` resolves a dangling `Future` tail to the publisher it is registered with (`copyTail`)
       let toCopy : Comp := { plain with applyTail := copyTail }
       .list [.atom "ok", wfSexp cs, ptagsSexp plain,
-        .list (runActions cs [] acts),
+        .list (runActions cs [] [] acts),
         .list [.atom "perfmodel", .atom (perfAgrees (toCopy.perfMech (· + 500000) closed pe) perf),
           .atom (perfAgrees (plain.perfOf (· + 500000) closed) perf)],
         .list [.atom "copy", Sexp.ofBool (toCopy.copyFaithful pe), Sexp.ofBool (plain.portsOk pe),
@@ -170,7 +191,25 @@ def stepC04 : Sexp → Sexp
     | some e, some sink, some acts =>
       let plain := compOf e sink
       let cs : Case := ⟨plain, plain.perfOf (· + 500000) sink⟩
-      .list [.atom "ok", wfSexp cs, ptagsSexp plain, .list (runActions cs [] acts)]
+      .list [.atom "ok", wfSexp cs, ptagsSexp plain, .list (runActions cs [] [] acts)]
+    | _, _, _ => .atom "bad-op"
+  -- `SetState.set` on an actor built with hyper-parameter `hp`: (params <flavour> <hp> <state>) -> (<hp> <state>)
+  | .list [.atom "params", fl, hp, st] =>
+    let flavour? : Option Flavour := match fl with
+      | .atom "default" => some .default
+      | .atom "own-codec" => some .ownCodec
+      | .atom "dict-codec" => some .dictCodec
+      | .atom "state-only" => some .stateOnly
+      | _ => none
+    let state? : Option (Option Origin) := match st with
+      | .atom "none" => some none
+      | .list [t, r, h, .atom "none"] => do pure (some ⟨← t.nat?, ← r.nat?, ← h.nat?, none⟩)
+      | .list [t, r, h, .list [pt, pr]] => do pure (some ⟨← t.nat?, ← r.nat?, ← h.nat?, some (← pt.nat?, ← pr.nat?)⟩)
+      | _ => none
+    match flavour?, hp.nat?, state? with
+    | some fl, some hp, some st =>
+      let a := presetActor fl ⟨hp, none⟩ st
+      .list [.atom "ok", Sexp.ofNat a.hp, stateSexp a.state]
     | _, _, _ => .atom "bad-op"
   | _ => .atom "bad-op"
 
